@@ -301,6 +301,65 @@ var malformed = [][]string{
 	{"cfg quota=1 win=10 size=2 t0=100", "enq r=0 p=0 ttl=7", "cfg quota=2 win=20 size=1 t0=40", "enq r=0 p=0 ttl=3", "enq r=1 p=0 ttl=3"},
 }
 
+func (s *sim) clone() *sim {
+	c := *s
+	c.heap = append([]int(nil), s.heap...)
+	c.reqs = append([]simReq(nil), s.reqs...)
+	return &c
+}
+
+// enumerate emits EVERY schedule of exactly `depth` steps over the step alphabet
+// {enq p=0, enq p=1 (at most maxReqs requests, ttl 1500), park r, roll (when due), expire r (when due),
+// tick to the window end} for quota 1, window 1000, queue size 2 — all interleavings of enqueuers,
+// roll-over and TTL timers in this small scope (shorter schedules are prefixes of the emitted ones).
+func enumerate(depth, maxReqs int, emit func(proto.Case)) int {
+	n := 0
+	var rec func(s *sim, ops []string, d int)
+	rec = func(s *sim, ops []string, d int) {
+		if d == 0 {
+			n++
+			emit(proto.Case{ID: fmt.Sprintf("x%d", n), Ops: ops})
+			return
+		}
+		try := func(f func(w *walk)) {
+			w := &walk{s: s.clone(), ops: append([]string(nil), ops...)}
+			f(w)
+			rec(w.s, w.ops, d-1)
+		}
+		if len(s.reqs) < maxReqs {
+			for p := int64(0); p < 2; p++ {
+				p := p
+				try(func(w *walk) {
+					for _, r := range w.s.reqs {
+						if r.ts == w.s.now {
+							w.tick(1)
+							break
+						}
+					}
+					w.add("enq r=%d p=%d ttl=1500", len(w.s.reqs), p)
+					w.s.enq(p, 1500)
+				})
+			}
+		}
+		for i, r := range s.reqs {
+			i := i
+			if r.ph == "gap" {
+				try(func(w *walk) { w.doPark(i) })
+			}
+			if r.ph == "parked" && r.dl <= s.now {
+				try(func(w *walk) { w.doExpire(i) })
+			}
+		}
+		if s.rollDue <= s.now {
+			try(func(w *walk) { w.doRoll() })
+		}
+		try(func(w *walk) { w.tick((w.s.now/w.s.win+1)*w.s.win - w.s.now) })
+	}
+	s := &sim{quota: 1, win: 1000, size: 2, now: 5000, widx: 5, rollDue: 6000}
+	rec(s, []string{"cfg quota=1 win=1000 size=2 t0=5000"}, depth)
+	return n
+}
+
 func gen(r *prng.R, f proto.Flags, emit func(proto.Case)) {
 	n, maxReqs, maxOps := 3000, 9, 50
 	if f.Tier == "thorough" {
@@ -309,6 +368,11 @@ func gen(r *prng.R, f proto.Flags, emit func(proto.Case)) {
 	n *= f.Budget
 	for i, ops := range malformed {
 		emit(proto.Case{ID: fmt.Sprintf("m%d", i), Ops: ops})
+	}
+	if f.Tier == "thorough" {
+		enumerate(8, 3, emit)
+	} else {
+		enumerate(5, 3, emit)
 	}
 	for k := 0; k < n; k++ {
 		rr := r.Fork()
